@@ -8,7 +8,9 @@ check("C15", "exploration",
       "recorded hook events of every random run (SetLen argument = initialised slots <= capacity, cursor inside the token "
       "array). TLC also model-checks the capacity question itself: 5 + 2*tokens is violated at 9-11 tokens, 5 + 4*tokens "
       "holds up to the bound. Sampled beyond the bounds (arbitrary bytes, soups, programs of every density, deep nesting, "
-      "mutated corpus, <= 256 KiB). The recogniser of the documented grammar (SyntaxRules.tla: pushdown recogniser over token classes, verdict valid | unc | invalid(lo, hi); all class sequences up to the bound in 7 contexts, every single-token fault of the derived modules, mutated corpus files validated by TLC on the real token stream) contributes the discrepancies that belong to this property.",
+      "mutated corpus, <= 256 KiB). Boundary cells (MC_DeltaBuffersEdge.tla): token counts around the capacity at source lengths around 2 x 65536, payload counts around "
+      "2^8 / 2^16, two limits at once (E103 after an invalid lexeme, E102 with invalid UTF-8), 1..250 errors, lexemes cut by the end of input, NUL / control / invalid bytes at buffer "
+      "boundaries, depths 1..256, names up to 200 000 bytes, a source of 2^31+1 bytes (E102); thorough: token counts around 2^24. A sample of inputs is run a second time in another order in the same worker. The recogniser of the documented grammar (SyntaxRules.tla: pushdown recogniser over token classes, verdict valid | unc | invalid(lo, hi); all class sequences up to the bound in 7 contexts, every single-token fault of the derived modules, mutated corpus files validated by TLC on the real token stream) contributes the discrepancies that belong to this property.",
       "Trusted: the harness supervisor (crash / timeout attribution per input), TLC, the annotated grammar (read off "
       "parser.rs; its node predictions are compared with the real parser on every emitted derivation: MODEL-DRIFT if they "
       "differ). Memory safety is decided through the buffer protocol and crashes only; a silent out-of-bounds read is "
